@@ -29,9 +29,9 @@ import (
 	"time"
 
 	"github.com/tsenart/vegeta/v12/internal/resolver"
+	vegeta "github.com/tsenart/vegeta/v12/lib"
 	"golang.org/x/net/http2"
 	"golang.org/x/net/http2/h2c"
-	vegeta "github.com/tsenart/vegeta/v12/lib"
 )
 
 type verifOp struct {
